@@ -13,8 +13,8 @@ dir=parser; [ "$pkg" = "rules_test" ] || [ "$pkg" = "rules" ] && dir=.
 cp "$OUT/demo_test.go" "$dir/zz_seed_demo_test.go"
 race=""; grep -q "race" "$OUT/notes.txt" 2>/dev/null && [ "$ID" = "C12" ] && race="-race"
 go test $race -vet=off -count=1 ./$dir/ >/tmp/seed_with.log 2>&1; with=$?
-git stash -q -- $(git diff --name-only)
+git apply -R "$OUT/patch.diff"
 go test $race -vet=off -count=1 ./$dir/ >/tmp/seed_without.log 2>&1; without=$?
-git stash pop -q
+git apply "$OUT/patch.diff"
 rm -f "$dir/zz_seed_demo_test.go"
 echo "{\"id\":\"$ID\",\"suite_ok_packages\":$suite,\"demo_exit_with_change\":$with,\"demo_exit_without_change\":$without}"
